@@ -143,7 +143,7 @@ def world_tasks(ctx, quick):
             for v in range(2):
                 add(name, chem=0 if v == 0 else None, starsets=allss if (dim == 2 or v == 0) else both,
                     calcs=[1, 2] if v == 0 else [1], nshell=1 + v, subset=bool(v), lattice=bool(v))
-        for n in range(60):
+        for n in range(160):
             w = worlds.random_world(rng, maxatoms=4)
             add(w["name"], w=w, starsets=both, calcs=[1, 2] if n % 3 == 0 else [1], nshell=1 + (n % 2),
                 subset=bool(n % 2), lattice=bool(n % 3 == 1), jitter=1e-10 if n % 4 == 1 else 0.0)
@@ -157,6 +157,7 @@ def run(ctx):
                 "without origin states and VacancyMediated om1_jn/om2_jn/omegalist for Nthermo 1,2, judged by TLC against the "
                 "definitional J1/J2; non-trivial = recorded network with a class of more than two jumps")
     tasks = world_tasks(ctx, quick)
+    from onsager import OnsagerCalc, crystalStars      # noqa: F401 -- import once, before the workers are forked
     t0 = time.time()
     with ProcessPoolExecutor(max_workers=8 if quick else 12, mp_context=multiprocessing.get_context("fork")) as ex:
         results = list(ex.map(record_world, tasks))
